@@ -32,6 +32,20 @@ use std::{
 pub type AbraInt = i64;
 pub type AbraFloat = f64;
 
+/// `a ^ b` for a non-negative exponent of any size: the exact power, or None if it does not fit.
+pub(crate) fn checked_pow_int(a: AbraInt, b: AbraInt) -> Option<AbraInt> {
+    match u32::try_from(b) {
+        Ok(exp) => a.checked_pow(exp),
+        // an exponent beyond u32 only has a representable power for 0, 1 and -1
+        Err(_) if b > 0 => match a {
+            0 | 1 => Some(a),
+            -1 => Some(if b % 2 == 0 { 1 } else { -1 }),
+            _ => None,
+        },
+        Err(_) => a.checked_pow(b as u32),
+    }
+}
+
 const GC_PAUSE_FACTOR: usize = 2;
 const GC_STEP_FACTOR: usize = 2;
 
@@ -1733,16 +1747,28 @@ impl VmGreenThread {
                     self.error = Some(self.make_error(VmErrorKind::DivisionByZero).into());
                     return false;
                 }
+                // b != 0, so the only failure left is MIN / -1
                 let Some(c) = a.checked_div(b) else {
-                    self.error = Some(self.make_error(VmErrorKind::DivisionByZero).into());
+                    self.error = Some(
+                        self.make_error(VmErrorKind::IntegerOverflowUnderflow)
+                            .into(),
+                    );
                     return false;
                 };
                 self.store_offset_or_top(dest, c);
             }
             Instr::DivideIntImm(dest, reg1, imm) => {
                 let a = self.load_offset_or_top(reg1).get_int(self);
-                let Some(c) = a.checked_div(self.shared.int_constants[imm as usize]) else {
+                let b = self.shared.int_constants[imm as usize];
+                if b == 0 {
                     self.error = Some(self.make_error(VmErrorKind::DivisionByZero).into());
+                    return false;
+                }
+                let Some(c) = a.checked_div(b) else {
+                    self.error = Some(
+                        self.make_error(VmErrorKind::IntegerOverflowUnderflow)
+                            .into(),
+                    );
                     return false;
                 };
                 self.store_offset_or_top(dest, c);
@@ -1750,7 +1776,7 @@ impl VmGreenThread {
             Instr::PowerInt(dest, reg1, reg2) => {
                 let b = self.load_offset_or_top(reg2).get_int(self);
                 let a = self.load_offset_or_top(reg1).get_int(self);
-                let Some(c) = a.checked_pow(b as u32) else {
+                let Some(c) = checked_pow_int(a, b) else {
                     self.error = Some(
                         self.make_error(VmErrorKind::IntegerOverflowUnderflow)
                             .into(),
@@ -1761,7 +1787,7 @@ impl VmGreenThread {
             }
             Instr::PowerIntImm(dest, reg1, imm) => {
                 let a = self.load_offset_or_top(reg1).get_int(self);
-                let Some(c) = a.checked_pow(self.shared.int_constants[imm as usize] as u32) else {
+                let Some(c) = checked_pow_int(a, self.shared.int_constants[imm as usize]) else {
                     self.error = Some(
                         self.make_error(VmErrorKind::IntegerOverflowUnderflow)
                             .into(),
@@ -1773,19 +1799,23 @@ impl VmGreenThread {
             Instr::Modulo(dest, reg1, reg2) => {
                 let b = self.load_offset_or_top(reg2).get_int(self);
                 let a = self.load_offset_or_top(reg1).get_int(self);
-                let Some(c) = a.checked_rem_euclid(b) else {
+                if b == 0 {
                     self.error = Some(self.make_error(VmErrorKind::DivisionByZero).into());
                     return false;
-                };
+                }
+                // MIN % -1 is 0; only the intermediate quotient overflows
+                let c = a.wrapping_rem_euclid(b);
                 self.store_offset_or_top(dest, c);
             }
             Instr::ModuloImm(dest, reg1, imm) => {
                 let a = self.load_offset_or_top(reg1).get_int(self);
                 let b = self.shared.int_constants[imm as usize];
-                let Some(c) = a.checked_rem_euclid(b) else {
+                if b == 0 {
                     self.error = Some(self.make_error(VmErrorKind::DivisionByZero).into());
                     return false;
-                };
+                }
+                // MIN % -1 is 0; only the intermediate quotient overflows
+                let c = a.wrapping_rem_euclid(b);
                 self.store_offset_or_top(dest, c);
             }
             Instr::BitXor(dest, reg1, reg2) => {
